@@ -867,8 +867,7 @@ def monitor_split(tabs, meta, page_h):
 # (coverage.streams.render.open_findings, with a first witness) and described in the builder's report; once listed
 # as open known findings with these signatures they go through run.fail (and are printed as KNOWN-FINDING).
 # Every other failed clause is a VIOLATION.
-REPORTED = {'crash:auto_table_layout-zero-division[oracle-min-gt-max]',
-            'table-geom:column-at-least-widest-unbreakable-content[oracle-min-gt-max]'}
+REPORTED = set()    # every finding of the build is either fixed in /repo or listed in known_findings.json
 
 
 def finding(run, tally, signature, what, data):
